@@ -1505,3 +1505,200 @@ C19_RETRO = dict(_STEP, func="run_next_retrospective_step", name="src_run_next_r
 C19_PROSP = dict(_STEP, func="run_next_prospective_step", name="src_run_next_prospective_step",
                  effects=_STEP["effects"] + [(_RUN_NEXT, "acts'", "!launch_cmd {state} {o} (next_cmd (Some {s}) {t} {x})")])  # screen=input_screen
 ALL += [C19_RETRO, C19_PROSP]
+# ---- C18: the randomised steps as resumption programs (Model/RandProg.v).  The translator's monad is `rprog`
+# (prog req ans (result T)): a primitive whose template contains a request is a call on the function's OWN generator argument
+# `rng`; every other call must be one of the request-free primitives below or is refused - so a module-level numpy.random
+# function, an argument-less default_rng(), or handing `rng` to another callee cannot be translated.
+_C18 = dict(out="SrcRand.v", imports="Model.RandProg",
+            monad=dict(type="rprog", bind="dop", ok="rp_ret", fold="rp_fold", unwrap="rp_unwrap", bind_quote=""))
+_RNG_RANDOM = ("rng.random()", "!rp_random", "Z")                                       # the double as its order key
+_RNG_CHOICE = ("rng.choice(__a, __n, replace=False)", "!rp_choice {a} {n}", "list Z", {"a": "list Z", "n": "Z"})
+_RNG_CHOICE_N = ("rng.choice(__n, size=__k, replace=False)", "!rp_choice_n {n} {k}", "list Z", {"n": "Z", "k": "Z"})
+
+# RandomScorer.score: `plates` is the dict's key list in iteration (= insertion) order; the Plate values are not read
+C18_RANDOM_SCORER = dict(
+    _C18, file="src/batchie/scoring/rand.py", cls="RandomScorer", func="score", name="src_random_scorer_score",
+    pyparams=["self", "plates", "distance_matrix", "samples", "rng", "progress_bar"],
+    unused_params=["self", "distance_matrix", "samples", "progress_bar"],
+    params=[("plates", "list Z")], returns="dict", vars={"scores": "dict", "k": "Z"},
+    effectful_dictcomp=True,
+    prims=[("plates.keys()", "plates'", "list Z"), _RNG_RANDOM],
+)
+
+# The two hold-out splits.  The screen is an object of an ARBITRARY type Scr with a size (and plates); the two Screen(...)
+# constructions are ARBITRARY request-free functions mk_keep / mk_hold of the screen and the selection vector (what they
+# build is C11's business).  The float `fraction` is the exact rational num/den, den > 0 (it occurs only inside primitives).
+_SCR = {"s": "Scr"}
+_KEEP_COLS = ("treatment_names=__s.treatment_names[~__v], treatment_doses=__s.treatment_doses[~__v], observations=__s.observations[~__v], "
+              "sample_names=__s.sample_names[~__v], plate_names=__s.plate_names[~__v], control_treatment_name=__s.control_treatment_name, "
+              "observation_mask=__s.observation_mask[~__v], ")
+_HOLD_COLS = ("treatment_names=__s.treatment_names[__v], treatment_doses=__s.treatment_doses[__v], observations=__s.observations[__v], "
+              "sample_names=__s.sample_names[__v], plate_names=__s.plate_names[__v], control_treatment_name=__s.control_treatment_name, "
+              "observation_mask=np.ones(np.count_nonzero(__v), dtype=bool), ")
+_SV = {"s": "Scr", "v": "list bool"}
+_HOLDOUT_PRIMS = [
+    ("fraction < 0", "num <? 0", "bool"),
+    ("fraction > 1", "den <? num", "bool"),
+    ("np.zeros(__s.size, dtype=bool)", "mask_zeros (scr_size {s})", "list bool", _SCR),
+    ("math.ceil(__n * fraction)", "ceil_frac {n} num den", "Z", {"n": "Z"}),      # over exact rationals (see harness/c18.py ASSUMPTIONS)
+    _RNG_CHOICE,
+]
+_HOLDOUT = dict(
+    _C18, file="src/batchie/retrospective.py", pyparams=["screen", "fraction", "rng"], returns="(Scr * Scr)", overload=True,
+    typed_loop_vars=True,
+    assign_effects=[("selection_vector[__i] = True", "selection_vector'", "!rp_lift (mask_set_true {state} {i})")],
+    raises=[("fraction must be between 0 and 1", "rp_raise 5")],
+)
+C18_RANDOM_HOLDOUT = dict(
+    _HOLDOUT, func="create_random_holdout", name="src_random_holdout",
+    params=[("Scr", "Type"), ("scr_size", "Scr -> Z"), ("mk_keep", "Scr -> list bool -> result Scr"),
+            ("mk_hold", "Scr -> list bool -> result Scr"), ("num", "Z"), ("den", "Z"), ("screen", "Scr")],
+    vars={"selection_vector": "list bool", "indices": "list Z", "keep_screen": "Scr", "holdout_screen": "Scr"},
+    prims=_HOLDOUT_PRIMS + [
+        ("np.arange(__s.size)", "zrange (scr_size {s})", "list Z", _SCR),
+        ("__s.size", "scr_size {s}", "Z", _SCR),
+        ("Screen(" + _KEEP_COLS + "sample_mapping=__s.sample_mapping, treatment_mapping=__s.treatment_mapping)",
+         "!rp_lift (mk_keep {s} {v})", "Scr", _SV),
+        ("Screen(" + _HOLD_COLS + "sample_mapping=__s.sample_mapping, treatment_mapping=__s.treatment_mapping)",
+         "!rp_lift (mk_hold {s} {v})", "Scr", _SV),
+    ],
+)
+# a plate is (np.arange(screen.size)[plate.selection_vector], plate.is_observed): Model/RandProg.plate_t
+_PL = {"p": "plate_t"}
+C18_BALANCED_HOLDOUT = dict(
+    _HOLDOUT, func="create_plate_balanced_holdout_set_among_masked_plates", name="src_balanced_holdout_prog",
+    params=[("Scr", "Type"), ("scr_size", "Scr -> Z"), ("scr_plates", "Scr -> list plate_t"), ("mk_keep", "Scr -> list bool -> result Scr"),
+            ("mk_hold", "Scr -> list bool -> result Scr"), ("num", "Z"), ("den", "Z"), ("screen", "Scr")],
+    vars={"selection_vector": "list bool", "plate": "plate_t", "plate_indices": "list Z", "n_sample": "Z",
+          "downsampled_indices": "list Z", "keep_screen": "Scr", "holdout_screen": "Scr"},
+    prims=_HOLDOUT_PRIMS + [
+        ("__s.plates", "scr_plates {s}", "list plate_t", _SCR),
+        ("np.arange(__s.size)[__p.selection_vector]", "fst {p}", "list Z", {"s": "Scr", "p": "plate_t"}),
+        ("__p.is_observed", "snd {p}", "bool", _PL),
+        ("__p.size", "zlen (fst {p})", "Z", _PL),               # Plate.size = number of selected rows
+        ("Screen(" + _KEEP_COLS + "treatment_mapping=__s.treatment_mapping, sample_mapping=__s.sample_mapping)",
+         "!rp_lift (mk_keep {s} {v})", "Scr", _SV),
+        ("Screen(" + _HOLD_COLS + "treatment_mapping=__s.treatment_mapping, sample_mapping=__s.sample_mapping)",
+         "!rp_lift (mk_hold {s} {v})", "Scr", _SV),
+    ],
+)
+# dbal_fast_gauss_scoring_vectorized: the run of statements that decides how many theta triples to use and draws them.
+# (The rest of the function is float arithmetic on the drawn indices, C05's subject; it is not part of this link.)
+C18_DBAL_SUBSAMPLE = dict(
+    _C18, file="src/batchie/scoring/gaussian_dbal.py", func="dbal_fast_gauss_scoring_vectorized", name="src_dbal_subsample",
+    pyparams=["predictions", "variances", "distance_matrix", "rng", "max_combos", "distance_factor"], pydefaults=["5000", "1.0"],
+    body_slice=("n_theta_combinations = comb(n_thetas, 3, exact=True)",
+                "unpacked_indices = rng.choice(n_theta_combinations, size=n_combos, replace=False)"),
+    params=[("n_thetas", "Z"), ("max_combos", "Z")], live_vars=["n_thetas"], returns="list Z",
+    implicit_return="{unpacked_indices}", int_truthiness=True,
+    vars={"n_theta_combinations": "Z", "n_combos": "Z", "unpacked_indices": "list Z"},
+    prims=[("comb(__n, 3, exact=True)", "binom3 {n}", "Z", {"n": "Z"}),       # scipy.special.comb, exact: C(n, 3), 0 below 3
+           ("min(__a, __b)", "Z.min {a} {b}", "Z", {"a": "Z", "b": "Z"}),
+           _RNG_CHOICE_N],
+    raises=[("Need at least 3 thetas", "rp_raise 4")],
+    # every identifier the REST of the function mentions: its own arguments and locals, numpy array functions, scipy's logsumexp,
+    # C15's pure unranking kernel; NOT `rng`, nothing of numpy.random - a new name there is refused
+    outside_names=["predictions", "variances", "distance_matrix", "distance_factor", "ValueError", ".format", ".shape", "np", ".isnan",
+                   ".nan_to_num", "mask", "padded_variances", "n_plates", "n_thetas", "max_experiments_per_plate", "zip",
+                   "get_combination_at_sorted_index", "ind", "unpacked_indices", "idx1", "idx2", "idx3", ".array", ".errstate", ".log",
+                   "log_triple_dists", "alpha", "exp_factor", ".square", "log_norm_factor", ".sum", "d12", "d13", "d23", "ll",
+                   "logsumexp", ".newaxis", "scores"],
+)
+ALL += [C18_RANDOM_SCORER, C18_RANDOM_HOLDOUT, C18_BALANCED_HOLDOUT, C18_DBAL_SUBSAMPLE]
+
+# FixedSizeSmoother / OptimalSizeSmoother._smooth_plates: a plate is its boolean selection vector over the screen's rows;
+# screen.subset(v).to_screen() is ANY request-free function mk_subset of the screen and the vector; OptimalSizeSmoother's three
+# numpy statements that pick the size are ANY request-free function opt_size of the list of plate sizes (what they compute is C13's).
+_VEC = {"p": "list bool"}
+_SIZE_SMOOTH = dict(
+    _C18, file="src/batchie/retrospective.py", func="_smooth_plates", pyparams=["self", "screen", "rng"], returns="Scr",
+    typed_loop_vars=True, ignore=["logger.info(__a)"],
+    vars={"results": "list list bool", "plate": "list bool", "new_indices": "list Z", "new_selection_vector": "list bool",
+          "final_selection_vector": "list bool", "optimal_size": "Z"},
+)
+_SIZE_SMOOTH_PRIMS = [
+    ("__s.plates", "scr_plates {s}", "list list bool", _SCR),
+    ("__p.size", "count_true {p}", "Z", _VEC),
+    ("__p.selection_vector", "{p}", "list bool", _VEC),
+    ("np.arange(__s.size)[__p.selection_vector]", "positions_of (scr_size {s}) {p}", "list Z", {"s": "Scr", "p": "list bool"}),
+    _RNG_CHOICE,
+    ("np.isin(np.arange(__s.size), __i)", "mask_of (scr_size {s}) {i}", "list bool", {"s": "Scr", "i": "list Z"}),
+    ("Plate(screen, __v)", "{v}", "list bool", {"v": "list bool"}),          # a plate of `screen` is its selection vector
+    ("np.zeros(__s.size, dtype=bool)", "mask_zeros (scr_size {s})", "list bool", _SCR),
+    ("__a | __b", "bor_mask {a} {b}", "list bool", {"a": "list bool", "b": "list bool"}),
+    ("__s.subset(__v).to_screen()", "!rp_lift (mk_subset {s} {v})", "Scr", _SV),
+]
+C18_FIXED_SIZE = dict(
+    _SIZE_SMOOTH, cls="FixedSizeSmoother", name="src_fixed_size_smooth",
+    params=[("Scr", "Type"), ("scr_size", "Scr -> Z"), ("scr_plates", "Scr -> list (list bool)"),
+            ("mk_subset", "Scr -> list bool -> result Scr"), ("plate_size", "Z"), ("screen", "Scr")],
+    prims=[("self.plate_size", "plate_size", "Z")] + _SIZE_SMOOTH_PRIMS,
+)
+_OPTIMAL_RUN = """
+plate_sizes = np.sort(np.array([plate.size for plate in screen.plates]))
+i = np.argmax(plate_sizes * (len(plate_sizes) - np.arange(len(plate_sizes))))
+optimal_size = plate_sizes[i]
+"""
+C18_OPTIMAL_SIZE = dict(
+    _SIZE_SMOOTH, cls="OptimalSizeSmoother", name="src_optimal_size_smooth", unused_params=["self"],
+    params=[("Scr", "Type"), ("scr_size", "Scr -> Z"), ("scr_plates", "Scr -> list (list bool)"),
+            ("mk_subset", "Scr -> list bool -> result Scr"), ("opt_size", "list Z -> result Z"), ("screen", "Scr")],
+    prims=_SIZE_SMOOTH_PRIMS,
+    # [plate.size for plate in screen.plates] = map count_true (scr_plates screen); np.argmax of an empty array raises
+    stmt_prims=[(_OPTIMAL_RUN, "optimal_size", "!rp_lift (opt_size (map count_true (scr_plates screen')))", "Z")], globals=["np", "len"],
+)
+ALL += [C18_FIXED_SIZE, C18_OPTIMAL_SIZE]
+
+# PlatePermutationPlateGenerator._generate_plates: plate names are integers (ranks of the names); screen.subset(v).to_screen(),
+# the Screen(...) construction with the new names and a.combine(b) are ANY request-free functions mk_subset / mk_renamed / mk_combine.
+_SCREEN_RENAMED = ("Screen(treatment_names=__s.treatment_names, treatment_doses=__s.treatment_doses, observations=__s.observations, "
+                   "sample_names=__s.sample_names, plate_names=__n, control_treatment_name=__s.control_treatment_name, "
+                   "observation_mask=np.zeros(__s.size, dtype=bool))")
+C18_PLATE_PERMUTATION = dict(
+    _C18, file="src/batchie/retrospective.py", cls="PlatePermutationPlateGenerator", func="_generate_plates", name="src_plate_permutation",
+    pyparams=["self", "screen", "rng"], returns="Scr", overload=True,
+    params=[("Scr", "Type"), ("scr_size", "Scr -> Z"), ("scr_plate_names", "Scr -> list Z"), ("mk_subset", "Scr -> list bool -> result Scr"),
+            ("mk_renamed", "Scr -> list Z -> result Scr"), ("mk_combine", "Scr -> Scr -> result Scr"), ("force", "opt list Z"), ("screen", "Scr")],
+    vars={"selection_vector": "list bool", "to_permute": "Scr", "non_permuted": "opt Scr", "new_plate_names": "list Z", "permuted": "Scr"},
+    prims=[
+        ("self.force_include_plate_names", "force", "opt list Z"),
+        ("~np.isin(__s.plate_names, __f)", "map (fun n__ => negb (memZ n__ {f})) (scr_plate_names {s})", "list bool", {"s": "Scr", "f": "list Z"}),
+        ("np.ones(__s.size, dtype=bool)", "mask_ones (scr_size {s})", "list bool", _SCR),
+        ("np.any(~__v)", "existsb negb {v}", "bool", {"v": "list bool"}),
+        ("__s.subset(~__v).to_screen()", "!rp_lift (mk_subset {s} (map negb {v}))", "Scr", _SV),
+        ("__s.subset(__v).to_screen()", "!rp_lift (mk_subset {s} {v})", "Scr", _SV),
+        ("rng.permutation(__s.plate_names)", "!rp_permutation (scr_plate_names {s})", "list Z", _SCR),
+        (_SCREEN_RENAMED, "!rp_lift (mk_renamed {s} {n})", "Scr", {"s": "Scr", "n": "list Z"}),
+        ("__a.combine(__b)", "!rp_lift (mk_combine {a} {b})", "Scr", {"a": "Scr", "b": "Scr"}),
+    ],
+)
+ALL += [C18_PLATE_PERMUTATION]
+
+# SampleSegregatingPermutationPlateGenerator._generate_plates: scr_sample_ids s = screen.unique_sample_ids, scr_sample_rows s i =
+# np.arange(s.size)[s.sample_ids == i]; a plate is the list of its row numbers; labels are plate numbers (-1 = "");
+# the final Screen(...) is ANY request-free function mk_labelled of the screen and the label vector.
+_SCREEN_LABELLED = ("Screen(treatment_names=__s.treatment_names.copy(), treatment_doses=__s.treatment_doses.copy(), "
+                    "observations=__s.observations.copy(), sample_names=__s.sample_names.copy(), plate_names=__l.astype(str), "
+                    "control_treatment_name=__s.control_treatment_name, observation_mask=__s.observation_mask.copy())")
+C18_SAMPLE_SEGREGATING = dict(
+    _C18, file="src/batchie/retrospective.py", cls="SampleSegregatingPermutationPlateGenerator", func="_generate_plates",
+    name="src_sample_segregating", pyparams=["self", "screen", "rng"], returns="Scr", typed_loop_vars=True,
+    params=[("Scr", "Type"), ("scr_size", "Scr -> Z"), ("scr_sample_ids", "Scr -> list Z"), ("scr_sample_rows", "Scr -> Z -> list Z"),
+            ("mk_labelled", "Scr -> list Z -> result Scr"), ("max_plate_size", "Z"), ("screen", "Scr")],
+    vars={"plate_indices": "list list Z", "sample_id": "Z", "sample_indices": "list Z", "n_plates": "Z", "plates": "list list Z",
+          "plate": "list Z", "plate_names": "list Z", "idx": "Z", "indices": "list Z"},
+    ignore=["logger.info(__a)"],
+    prims=[
+        ("self.max_plate_size", "max_plate_size", "Z"),
+        ("__s.unique_sample_ids", "scr_sample_ids {s}", "list Z", _SCR),
+        ("np.arange(__s.size)[__s.sample_ids == __i]", "scr_sample_rows {s} {i}", "list Z", {"s": "Scr", "i": "Z"}),
+        ("math.ceil(len(__a) / float(__b))", "!rp_lift (ceil_div_float (zlen {a}) {b})", "Z", {"a": "list Z", "b": "Z"}),
+        ("len(__a)", "zlen {a}", "Z", {"a": "list Z"}),
+        ("rng.permutation(__a)", "!rp_permutation {a}", "list Z", {"a": "list Z"}),
+        ("np.array_split(__a, __n)", "!rp_lift (array_split_z {a} {n})", "list list Z", {"a": "list Z", "n": "Z"}),
+        ("np.array([''] * __s.size, dtype=object)", "labels_blank (scr_size {s})", "list Z", _SCR),
+        (_SCREEN_LABELLED, "!rp_lift (mk_labelled {s} {l})", "Scr", {"s": "Scr", "l": "list Z"}),
+    ],
+    assign_effects=[("plate_names[__i] = f'generated_plate_{__k}'", "plate_names'", "!rp_lift (label_set {state} {i} {k})")],
+)
+ALL += [C18_SAMPLE_SEGREGATING]
